@@ -166,7 +166,8 @@ def run(tier, rng, C):
             if low:
                 fails.append("%s build: %s: byte position(s) %s show only that many distinct values over 3000 draws (256 expected)" % (build, l, low[:4]))
             nbytes = int(l.split(" ")[2])
-            if nbytes >= 4 and int(ws[2]) != 3000:
+            # (from 6 bytes on: two equal values among 3000 draws of 6 random bytes have a chance of 2e-8; of 4 bytes, 1e-3)
+            if nbytes >= 6 and int(ws[2]) != 3000:
                 fails.append("%s build: %s: only %s distinct values among 3000 draws" % (build, l, ws[2]))
     stats["per_position_value_coverage_draws"] = 3000 * len(pos_lines) * 2
     # the generators in a process that cannot open another file (descriptor table full): fresh values or a loud refusal, never constants
